@@ -6,7 +6,6 @@ from .. import worldrules as W
 from .. import witness
 from ..cfg import per_iteration_counts
 from ..facts import Callee, AnchorError
-from ..paths import enumerate_paths
 from ..shapes import root
 from ..terms import subterms
 
@@ -111,7 +110,13 @@ def register(ctx, report, facts, config, rule="C17.REGISTER"):
                 idx = Q.strip(ev, inserts[0][1])
                 lens = [x for x in events if x[0] == "call" and x[4] == idx]
                 oki = (Q.is_call(ev, idx, "len") and Q.crate_fields(Q.table_access(ev, idx[2][0])[0]) == [(MT, "indices")]
-                       and lens and pos[id(lens[0])] < pos[id(ents[0])])
+                       and lens and pos[id(lens[0])] < pos[id(inserts[0][0])])
+                if oki:
+                    # nothing enters or leaves the index map between taking its length and the insertion
+                    for y in events[pos[id(lens[0])] + 1:pos[id(inserts[0][0])]]:
+                        if y[0] == "call" and not y[2].local and y[3] and y[2].name in ("insert", "remove", "clear", "retain", "drain", "extend", "remove_entry", "or_insert", "or_insert_with") \
+                                and ("VacantEntry" in y[2].path or Q.crate_fields(Q.table_access(ev, y[3][0])[0]) == [(MT, "indices")]):
+                            oki = False
                 if not oki:
                     problems.append("the inserted index is not indices.len() taken before the insertion")
             pv = pushes.get(vt, [])
@@ -252,49 +257,78 @@ def lookup(ctx, report, facts, config, rule="C17.LOOKUP"):
                   "indices.get(&res.type_id()): None if unregistered, else self.%s[i] applied to `res` cast to *mut ()" % vt, site=b.loc(), config=config)
 
 
+def _ptr_strip(ev, t):
+    """Drop the address-preserving conversions of a raw pointer: `as` casts, ptr::cast/cast_mut/cast_const, addr/expose."""
+    while isinstance(t, tuple) and t:
+        if t[0] == "cast":
+            t = t[2]
+        elif t[0] == "call":
+            c = ev.callee(t[1])
+            if c is not None and not c.local and c.name in ("cast", "cast_mut", "cast_const", "addr", "expose_provenance", "expose_addr") and "ptr::" in c.path and len(t[2]) == 1:
+                t = t[2][0]
+            else:
+                break
+        else:
+            break
+    return t
+
+
+def _address_test(ev, atom, value):
+    """(a, b, equal?) if the decided atom compares two addresses, in any spelling (ptr::eq / addr_eq, ==, != on casts)."""
+    if isinstance(atom, tuple) and atom and atom[0] == "call":
+        c = ev.callee(atom[1])
+        if c is not None and not c.local and c.name in ("eq", "addr_eq", "ne") and ("ptr" in c.path or c.trait in ("std::cmp::PartialEq",)) and len(atom[2]) == 2:
+            eq = (value == 1) if c.name != "ne" else (value == 0)
+            return atom[2][0], atom[2][1], eq
+    n = Q.norm_cmp(atom, value)
+    if n is not None and n[0] in ("Eq", "Ne"):
+        return n[1], n[2], n[0] == "Eq"
+    return None
+
+
 def attach(ctx, report, facts, config, rule="C17.ATTACH"):
     if vt_field(facts) != "vtable_fns":
         b = facts.one(MT + "::register")
         # nightly: the address assertion lives in register
-        ps = enumerate_paths(b, facts)
-        asserts = [p for p in ps if p.end == "diverge"]
+        ev, ends = Q.sem(ctx, facts, b)
+        asserts = [e for e in ends if e.kind == "diverge"]
         report.ob(rule, "register/address-assert", len(asserts) >= 1, "register panics when CastFrom::cast changes the address", site=b.loc(), config=config)
         return
     b = facts.one(A.C + "::meta::attach_vtable")
     report.touched(b, config)
-    ps = enumerate_paths(b, facts)
+    ev, ends = Q.sem(ctx, facts, b)
     problems = []
     n_ret = n_div = 0
-    for p in ps:
-        eqs = [(ct, cv) for (ct, cv, cn, cb) in p.conds if ct[0] == "call" and S.callee_at(b, ct[1]).name == "eq" and "ptr" in S.callee_at(b, ct[1]).path]
-        if len(eqs) != 1:
-            problems.append("a path does not test ptr::eq(value, result)")
-            continue
-        ct, cv = eqs[0]
-        a0, a1 = ct[2]
+    value = ("param", 1)
 
-        def strip(t):
-            while isinstance(t, tuple) and t and (t[0] == "cast" or (t[0] == "call" and S.callee_at(b, t[1]).name in ("cast", "cast_mut", "cast_const")
-                                                                     and "ptr::" in S.callee_at(b, t[1]).path)):
-                t = t[2] if t[0] == "cast" else t[2][0]
-            return t
-        s0, s1 = strip(a0), strip(a1)
-        castcall = s1 if s0 == ("param", 1) else s0
-        okc = ("param", 1) in (s0, s1) and castcall[0] == "call" and S.callee_at(b, castcall[1]).trait == A.T_CASTFROM and strip(castcall[2][0]) == ("param", 1)
-        if not okc:
-            problems.append("the assertion does not compare `value` with <TraitObject as CastFrom<T>>::cast(value)")
-        if p.end == "return":
+    def is_cast_of_value(t):
+        t = _ptr_strip(ev, t)
+        c = Q.callee_of(ev, t)
+        return c is not None and c.trait == A.T_CASTFROM and c.name == "cast" and len(t[2]) == 1 and _ptr_strip(ev, t[2][0]) == value
+
+    for e in ends:
+        tests = []
+        for (ct, cv, cn, cs) in e.path.conds:
+            a = _address_test(ev, ct, cv)
+            if a is None:
+                continue
+            x, y, eq = a
+            if (_ptr_strip(ev, x) == value and is_cast_of_value(y)) or (_ptr_strip(ev, y) == value and is_cast_of_value(x)):
+                tests.append(eq)
+        if e.kind == "return":
             n_ret += 1
-            if cv != 1:
+            if not tests:
+                problems.append("a returning path does not compare the address of `value` with <TraitObject as CastFrom<T>>::cast(value)")
+            elif not all(tests):
                 problems.append("attach_vtable returns although the address changed")
-            if strip(p.ret) != castcall:
+            if not is_cast_of_value(e.ret):
                 problems.append("attach_vtable does not return the cast result")
-        elif p.end == "diverge":
+        elif e.kind == "diverge":
             n_div += 1
-            if cv != 0:
+            if tests and all(tests):
                 problems.append("attach_vtable panics although the address is unchanged")
-    report.ob(rule, "attach_vtable", not problems and n_ret == 1 and n_div == 1, "; ".join(sorted(set(problems))) if problems else
-              "returns CastFrom::cast(value) iff its address equals `value`, else panics", site=b.loc(), config=config)
+    report.ob(rule, "attach_vtable", not problems and n_ret >= 1 and n_div >= 1, "; ".join(sorted(set(problems))) if problems else
+              "returns CastFrom::cast(value) only where its address equals `value`, else panics", site=b.loc(), config=config)
 
 
 def iters(ctx, report, facts, config, rule="C17.ITER"):
